@@ -201,6 +201,17 @@ pub fn oracle(case: &Case, probe: &mut Probe) -> Result<(), Fail> {
             let p2v: Vec<bool> = p2.clone().unwrap_or_else(|| p1.iter().map(|b| !b).collect());
             let n2 = p2v.len();
             let mut rng = ScriptRng::new(script, 0x5EED);
+            // in a third of the cases the thread has just recombined parents of other lengths (whatever a
+            // recombinator or its thread remembers from them must not influence the judged recombination)
+            if script.len() % 3 == 1 {
+                probe.label("other parents recombined on this thread first");
+                let mut warm_rng = ScriptRng::new(&[], 0xFACE ^ n1 as u64);
+                let _ = guarded(|| {
+                    let _ = recombine_vec_kind(*gene, *two_point, *tuple, n1 + 7, n1 + 7, &mut warm_rng);
+                    let _ = recombine_bits(*two_point, *tuple, &[true; 70], &[false; 70], &mut warm_rng);
+                    let _ = recombine_vec_kind(*gene, !*two_point, *tuple, 3, 3, &mut warm_rng);
+                });
+            }
             let out = guarded(|| {
                 if *bits {
                     recombine_bits(*two_point, *tuple, p1, &p2v, &mut rng).0
